@@ -511,6 +511,9 @@ def c13(ctx):
     undecided = sum(1 for r in runs if r["outcome"] == "abort")
     runs = [r for r in runs if r["outcome"] != "abort"]
     verdicts = judge(ctx, runs)
+    # real processes, real sockets, real clock: segmented requests on kept-alive connections, keep-alive time
+    from props import gthread_real
+    gthread_real.real_side(ctx)
     account_design(ctx, fut_design.result())
     pool.shutdown()
     ctx.coverage["exhaustive"] = True
